@@ -28,7 +28,7 @@ CHECKS["C02"] = dict(
          "(1..16383 incl. boundaries), TCP write segmentation and pacing, 0..120 KB (thorough 2 MiB) per send. Non-trivial = >=2 chunks in some direction, or a "
          "half-close followed by traffic in the opposite direction, or an address split across chunks / coalesced with data. Distinct = canonical case JSON.",
     assumptions=["loopback only: no loss or reordering below TCP", "interleavings are those the kernel and scheduler produce under generated pacing"],
-    units=[unit("props", ["Relay", "Concurrent", "Duplex"], "C02"), unit("props26", ["Quiet"], "C02")],
+    units=[unit("props", ["Relay", "Concurrent", "Duplex", "Mem"], "C02"), unit("props26", ["Quiet"], "C02")],
 )
 
 _UDP_GEN = ("rapid-generated datagram histories through the real PacketHandler on a real dual-stack UDP socket: 1..7 client sockets on 127.x.y.z/::1 "
@@ -443,7 +443,7 @@ for _k, _v in _ADDED.items():
     CHECKS[_k]["rule"] = _v.strip() + " " + CHECKS[_k]["rule"]
 _ADDED6 = {
     "C01": "(Concurrent, round 6) in half of the cases the key list is replaced over and over while the workers look up, alternately by a list of another length (1, n-1, n/2, n+1, n+7, 2n keys) and the original one, the shared key in both; every third lookup is then 60 random bytes and must be refused without a panic. ",
-    "C02": "(Quiet, fake-time engine) the real StreamHandler between two in-memory duplex conns inside a testing/synctest bubble: scripts of client sends, target sends, either half-close and pauses of 1 ms..4 h (incl. 9.999/10/10.001 s, 59/59.001/60 s); after every step the target holds exactly the client's plaintext and the client decrypts exactly the target's bytes, and each side has seen end-of-stream iff the other half-closed. Non-trivial (Quiet) = a pause of >=10 s while exactly one direction is closed. ",
+    "C02": "(Quiet, fake-time engine) the real StreamHandler between two in-memory duplex conns inside a testing/synctest bubble: scripts of client sends, target sends, either half-close and pauses of 1 ms..4 h (incl. 9.999/10/10.001 s, 59/59.001/60 s); after every step the target holds exactly the client's plaintext and the client decrypts exactly the target's bytes, and each side has seen end-of-stream iff the other half-closed. Non-trivial (Quiet) = a pause of >=10 s while exactly one direction is closed. (Mem) the real StreamHandler between in-memory conns that return at most 1..70000 bytes per Read and may deliver their last bytes together with io.EOF, on the client and on the target side: the target receives exactly the payload, the client decrypts exactly the target's stream. ",
     "C12": "(AcceptFault) a unit of its own (fresh process per shard): with 1..4 handles accepting, 1..4 client sockets created beforehand connect while RLIMIT_NOFILE is lowered to 1, so that the shared accept fails with EMFILE for 1..20 ms with connections waiting in the backlog; after the limit is restored every waiting connection and 0..3 later ones are delivered exactly once and no handle that nobody closed reports a closed listener; 1..3 rounds. Non-trivial (AcceptFault) = the handles really saw accept errors. ",
     "C14": "(Lifecycle) script otherkey: after each datagram of a live association the same client socket sends one under the other configured key; the association's lower and upper bounds stand and at shutdown every association ever reported is removed exactly once with no goroutine or socket left. ",
     "C15": "(Mem) the real StreamHandler on an in-memory client conn that returns at most 1..70000 bytes per Read and, in half of the cases, its last bytes together with io.EOF; valid streams (0..50000 bytes each way, status OK, all four counters equal to what the conns carried) and random streams of 0..20000 bytes (probe report and client->proxy counter equal to the stream's length); the target's conn likewise returns at most 1..40000 bytes per Read and may deliver its last bytes with io.EOF, and the client must be able to decrypt the target's whole stream. Non-trivial (Mem) = last bytes with io.EOF or reads shorter than 51 bytes. ",
